@@ -197,17 +197,17 @@ class Sys(e2.DevSys):
                 # cancelled before it resumes) unless the stop itself is deferred by one callback and was
                 # requested after the timers of that iteration
                 queued = [q for q in allq if q < te - r or (abs(q - te) < r and deferred and pos == "post")]
-                # a queued offer still waiting in the send collector when the instance stops is discarded
-                wire = [q for q in queued
-                        if c == 0 or q + c < te - r or (abs(q + c - te) < r and (pos == "post" or deferred))]
+                # a queued offer still waiting in the send collector when the instance stops is flushed:
+                # it leaves at the stop instant, before the StopOffer
+                wire = queued
             for q in wire:
-                if q + c <= horizon:
-                    seq.append(("offer", q, q + c, n))
+                if q + c <= horizon or (te is not None and te <= horizon):
+                    seq.append(("offer", q, q + c if te is None else min(q + c, max(te, q)), n))
             if te is not None and te + c <= horizon:
                 if queued or not cfg["cyclic"]:
                     if not wire:
-                        # nothing was transmitted before the stop: whether a StopOffer follows is unspecified
-                        # for a non-cyclic instance / for an offer that was discarded from the queue
+                        # a non-cyclic instance stopped before its first offer: whether a StopOffer follows is
+                        # not specified
                         optional.append(len(seq))
                     seq.append(("stop", te, te + c, n))
         alts = [seq]
@@ -289,7 +289,7 @@ class Sys(e2.DevSys):
         out = []
         for (k, t, e), (ke, tmin, tmax, n) in zip(obs, exp):
             ok = tmin <= t <= tmax
-            if ok and c and e[5] and k == "offer" and t != tmax:
+            if ok and c and e[5] and k == "offer" and t != tmax and self.ninst == 1:
                 # first entry of its message: the collector was opened by it, so it leaves exactly c later
                 ok = False
             if not ok:
